@@ -16,7 +16,7 @@ func init() {
 		LevelText:   "Structural clauses decided for all paths: every start and stop position constant has a case whose offset comes from the documented source, unknown values are refused; every sentinel error the readers can return is mapped; an inverted range is refused before a reader exists; the loop sends a message before testing the stop condition; a loop that terminates by comparing the offset just read with a target uses an ordering, not equality (offsets are sparse after compaction); the reverse reader clamps its start to the high watermark; index slots are never derived from offsets. The end of a reverse subscription is reported as ResourceExhausted, the range test and the past-the-stop test exist for each direction, the read-only stop offset is applied only when reading forward, and the timestamp lookups have the comparison shapes (and polarities) their answers depend on. That the delivered set equals the requested range on every log shape is not decided.",
 		LevelNote:   "Trusted: go/ssa; the commit log's lookup functions (decided separately under C01).",
 		DesignRef:   "DESIGN.md §4 C10",
-		Explanation: "R01.14 / R01.8 (shared, round 6). R10.3 also: a requested stop offset is never taken for the sentinel (F95); R10.8 also: timestamp positions follow the direction (F96); R10.9 also: the start offset is capped only past the next offset; R10.2 also: a re-positioned reverse reader ends only at the first segment; R03.4 / R03.7 (shared, F98 / F101); R08.9 (shared, K17). R03.14 / R03.15 (shared, F92 / K16). R10.10 a stop position on a log emptied by retention ends the subscription (F83); R03.13 (shared) no append after the readers were told the log is read-only (F86); R09.9 (shared) readers are not positioned in segments marked deleted (F87); R06.4 (shared) read-only re-applied at load. R14.11 (shared) a stored subject that is not valid UTF-8 does not end the subscription (F71). R10.1 position tables, R10.2 error→status table, R10.3 inverted range refused / send-before-stop, R01.5 + R03.5 (shared), R10.5 termination on sparse logs, R10.6 reverse start clamp, R03.9 (shared) end-of-log only at the current watermark, R01.8 / R01.9 (shared) log shapes and reader provenance, R10.7 timestamp lookup falls through to the next segment whenever it exists. R10.2 the reverse reader's end is reported as ResourceExhausted; R10.3 is direction-aware (range test and past-the-stop test per direction, read-only stop only when reading forward); R10.8 timestamp lookup shapes and polarity; R14.6 (shared) reader sentinels arrive unwrapped; R03.10 (shared) Read fills or fails. R10.9 a reader parked above the watermark records and resumes at the requested offset; R10.3 an implicit read-only stop before the start is not an argument error; R08.6 (shared) reads of a segment replaced by compaction or deleted by retention ask the reader to re-position, forward and reverse; R10.2 a cancelled subscription is not reported as the end, a reverse subscription with nothing committed ends at once; R10.8 equal timestamps: latest = offset before the first entry strictly after, earliest steps back over segments that begin at the timestamp. NOT decided: delivered set = requested range for every log shape; timestamp lookups on logs whose timestamps are not monotone.",
+		Explanation: "R10.8 also (round 8): a reverse timestamp start is handed on as resolved (-1 included) and never runs through the empty-log clamp. R01.14 / R01.8 (shared, round 6). R10.3 also: a requested stop offset is never taken for the sentinel (F95); R10.8 also: timestamp positions follow the direction (F96); R10.9 also: the start offset is capped only past the next offset; R10.2 also: a re-positioned reverse reader ends only at the first segment; R03.4 / R03.7 (shared, F98 / F101); R08.9 (shared, K17). R03.14 / R03.15 (shared, F92 / K16). R10.10 a stop position on a log emptied by retention ends the subscription (F83); R03.13 (shared) no append after the readers were told the log is read-only (F86); R09.9 (shared) readers are not positioned in segments marked deleted (F87); R06.4 (shared) read-only re-applied at load. R14.11 (shared) a stored subject that is not valid UTF-8 does not end the subscription (F71). R10.1 position tables, R10.2 error→status table, R10.3 inverted range refused / send-before-stop, R01.5 + R03.5 (shared), R10.5 termination on sparse logs, R10.6 reverse start clamp, R03.9 (shared) end-of-log only at the current watermark, R01.8 / R01.9 (shared) log shapes and reader provenance, R10.7 timestamp lookup falls through to the next segment whenever it exists. R10.2 the reverse reader's end is reported as ResourceExhausted; R10.3 is direction-aware (range test and past-the-stop test per direction, read-only stop only when reading forward); R10.8 timestamp lookup shapes and polarity; R14.6 (shared) reader sentinels arrive unwrapped; R03.10 (shared) Read fills or fails. R10.9 a reader parked above the watermark records and resumes at the requested offset; R10.3 an implicit read-only stop before the start is not an argument error; R08.6 (shared) reads of a segment replaced by compaction or deleted by retention ask the reader to re-position, forward and reverse; R10.2 a cancelled subscription is not reported as the end, a reverse subscription with nothing committed ends at once; R10.8 equal timestamps: latest = offset before the first entry strictly after, earliest steps back over segments that begin at the timestamp. NOT decided: delivered set = requested range for every log shape; timestamp lookups on logs whose timestamps are not monotone.",
 	})
 }
 
